@@ -31,6 +31,9 @@ class Host:
                 host.probe_calls += 1
                 i = args[0] if args else None
                 host.log.append(('t', str(i)))
+                cur = monitors.M.cur
+                if cur is not None and cur.log_effects:
+                    cur.effects.append((cur.nodes, 'probe:t', str(i)))
                 if host.probe_faults.get(host.probe_calls) == 'raise':
                     raise HostError('probe %s' % (i,))
                 return args[1] if len(args) > 1 else i
@@ -39,6 +42,9 @@ class Host:
                 host.probe_calls += 1
                 i = args[0] if args else None
                 host.log.append(('boom', str(i)))
+                cur = monitors.M.cur
+                if cur is not None and cur.log_effects:
+                    cur.effects.append((cur.nodes, 'probe:boom', str(i)))
                 raise HostError('probe %s' % (i,))
 
             def call(f, *args):
@@ -65,6 +71,22 @@ class Host:
             for k, f in self._fns.items():
                 f._sim_kind = 'host:' + k
         return {k: self._fns[k] for k in which}
+
+
+class RecDict(dict):
+    """Host names mapping that logs every write into the active monitor record (effect log)."""
+
+    def __setitem__(self, k, v):
+        cur = monitors.M.cur
+        if cur is not None and cur.log_effects:
+            cur.effects.append((cur.nodes, 'names[%s]=' % (k,), canon.cdigest(v, monitors.M.fn_names)))
+        dict.__setitem__(self, k, v)
+
+    def __delitem__(self, k):
+        cur = monitors.M.cur
+        if cur is not None and cur.log_effects:
+            cur.effects.append((cur.nodes, 'del names[%s]' % (k,), ''))
+        dict.__delitem__(self, k)
 
 
 def classify(exc):
